@@ -21,6 +21,7 @@ Definition sx_item (x : sx) : option item :=
       match sx_strs cls, sx_schars nm with Some c, Some n => Some (IVoice c n) | _, _ => None end
   | SL [SI 6; SS s] => Some (IStamp s)
   | SL [SI 7; c; SS n] => match sx_bool c with Some b => Some (IUnk b n) | None => None end
+  | SL [SI 8; SS n; SI c] => Some (IEnt n c)
   | _ => None
   end.
 Definition sx_items := sx_listof sx_item.
@@ -47,6 +48,18 @@ Definition sx_hev (x : sx) : option hev :=
   end.
 
 Definition of_nodes (l : list node) : sx := of_list of_node l.
+
+Definition sx_nat (x : sx) : option nat := match x with SI z => Some (Z.to_nat z) | _ => None end.
+Definition sx_block (x : sx) : option (vblock * nat) :=
+  match x with
+  | SL [SI 0; ident; SS timing; its; g] =>
+      match sx_opt sx_str ident, sx_items its, sx_nat g with
+      | Some i, Some l, Some g => Some (BCue i timing l, g)
+      | _, _, _ => None end
+  | SL [SI 1; ls; g] =>
+      match sx_strs ls, sx_nat g with Some l, Some g => Some (BOther l, g) | _, _ => None end
+  | _ => None
+  end.
 
 Definition req_read (arg : sx) : sx :=
   match arg with
@@ -94,6 +107,16 @@ Definition dispatch (code : Z) (arg : sx) : option sx :=
                      match sx_items its, sx_strs obs with
                      | Some l, Some o => of_bool (ok_lines (display l) o)
                      | _, _ => bad end
+                 | _ => bad end)
+  | 409 => Some (match arg with
+                 | SL [fx; ls] => match sx_bool fx, sx_strs ls with
+                                  | Some f, Some l => of_list of_nodes (vtt_parse f l)
+                                  | _, _ => bad end
+                 | _ => bad end)
+  | 410 => Some (match arg with
+                 | SL [hd; bs] => match sx_strs hd, sx_listof sx_block bs with
+                                  | Some h, Some b => of_strs (vtt_document_lines h b)
+                                  | _, _ => bad end
                  | _ => bad end)
   | _ => None
   end.
